@@ -361,6 +361,14 @@ def run(ctx):
         and m0s[0].args[0] == T.to_term(dspec)
     ctx.expect(ok, "R08.4", "SourceTermBalance.evaluate_bulk_imbalance",
                "bulk imbalance == generation.bulk_rate + dissipation.bulk_rate - m0(dE/dt)", m.loc(), derived=r)
+    if ok:
+        # the rate of change is integrated over the same band as the bulk source terms - the whole grid: no band limits are
+        # handed to m0 (its half-open band [fmin, fmax) would drop the last bin if the grid's end points were passed)
+        band = tuple(m0s[0].args[1:])
+        extra = band not in ((), (sp.Integer(0),), (sp.Integer(0), sp.oo))
+        ctx.expect(not extra, "R08.4", "SourceTermBalance.evaluate_bulk_imbalance[band of dE/dt]",
+                   "m0 of the rate of change is taken over the whole frequency grid, like the bulk source terms", m.loc(),
+                   derived=m0s[0])
     ctx.absorb(it3)
 
     # ------------------------------------------------------------------ R08.5 batch independence
@@ -403,7 +411,7 @@ def run(ctx):
     ctx.require_count("R08.1", 12)
     ctx.require_count("R08.2", 7)
     ctx.require_count("R08.3", 14)
-    ctx.require_count("R08.4", 3)
+    ctx.require_count("R08.4", 4)
     ctx.require_count("R08.5", 10)
 
 
